@@ -510,7 +510,12 @@ def hint_ord(progs):
                 own = [c for c in delegs if own_hint(c)]
                 direct = [c for c in A.calls(f['body']) if c.get('method') and c.get('obj') is not None and A.strip(c['obj']).get('name') == '_sortedVector'
                           and not c.get('constm')]
-                ok = len(own) >= 1 and len(own) == len(delegs) and not direct
+                ok = len(own) == len(delegs) and not direct      # handing the value to the un-hinted insert is right too (C12): a hint is only a hint
+                rr19.instance('%s|node' % f['key'], {'function': f['pname'][:150], 'delegations_with_own_hint': len(own)})
+                if not own:
+                    rr19.add(Finding('HINT-FREE', '%s|node-hint-ignored' % f['key'], f['loc'],
+                                     'insert(hint, node) does not hand its hint to the hinted insertion: a correct hint no longer saves the binary search '
+                                     '(O(log n) comparator calls instead of a constant)', where=f['pname'], unit=prog.uname))
                 rr12.instance('%s|node' % f['key'], {'function': f['pname'][:150], 'delegations_with_own_hint': len(own), 'direct_vector_mutations': len(direct),
                                                      'verdict': 'guarded delegation' if ok else 'FAILS'})
                 if not ok:
